@@ -99,7 +99,7 @@ class Registry:
                 except Exception as e:  # noqa
                     ob = {'observe_error': repr(e)}
                 self.serial += 1
-                self.items.append((weakref.ref(obj), ob, self.serial, obj))
+                self.items.append((weakref.ref(obj), ob, self.serial))
         finally:
             self._busy = False
 
@@ -107,7 +107,7 @@ class Registry:
         """yield (serial, birth, now) for every live registered object whose observation changed"""
         self._busy = True
         try:
-            for ref, birth, serial, _strong in self.items:
+            for ref, birth, serial in self.items:
                 obj = ref()
                 if obj is None:
                     continue
@@ -121,3 +121,40 @@ class Registry:
                     yield serial, birth, now
         finally:
             self._busy = False
+
+
+class MutationTap:
+    """log attribute writes on shared node objects (explains an aliasing violation; does not decide it)"""
+
+    def __init__(self, name_of):
+        self.name_of = name_of
+        self.log = []
+        self.active = False
+
+    def install(self):
+        from adsg_core.graph.adsg_nodes import DSGNode
+        tap = self
+
+        def setattr_(obj, key, value):
+            if tap.active and key in ('deg_list', 'deg_min', 'deg_max', 'repeated_allowed', 'option_id', 'decision_id',
+                                      'assigned_value', 'perm_decision_link_key'):
+                old = obj.__dict__.get(key, '<unset>')
+                if old != value and old != '<unset>':
+                    try:
+                        nm = tap.name_of(obj)
+                    except Exception:  # noqa
+                        nm = '?'
+                    tap.log.append((nm, key, repr(old)[:40], repr(value)[:40]))
+                    if len(tap.log) > 200:
+                        del tap.log[:100]
+            object.__setattr__(obj, key, value)
+        DSGNode.__setattr__ = setattr_
+        self._cls = DSGNode
+        self.active = True
+
+    def uninstall(self):
+        try:
+            del self._cls.__setattr__
+        except Exception:  # noqa
+            pass
+        self.active = False
